@@ -353,7 +353,7 @@ func init() {
 	}
 	register(&PropSpec{
 		ID:   "C01",
-		Pkgs: []string{"./shovel"},
+		Pkgs: []string{"./shovel", "./jrpc2"},
 		Runs: func(tier string) []HRun {
 			var rs []HRun
 			ks, bs, cs := steps(tier)
@@ -366,6 +366,10 @@ func init() {
 						}
 					}
 				}
+			}
+			// a retried or repeated fetch of the same range (cache hit) yields each item once
+			for kind := 0; kind <= 2; kind++ {
+				rs = append(rs, HRun{Pkg: "./jrpc2", Fn: "ZZ_C08_Seq", Params: []int{kind, 2, 2, 1}, MaxPaths: 200000, Label: "refetch-yields-items-once"})
 			}
 			return rs
 		},
@@ -397,7 +401,7 @@ func init() {
 	})
 	register(&PropSpec{
 		ID:   "C03",
-		Pkgs: []string{"./shovel"},
+		Pkgs: []string{"./shovel", "./jrpc2"},
 		Runs: func(tier string) []HRun {
 			var rs []HRun
 			type cfg struct{ k, canon, batch, steps int }
@@ -408,11 +412,17 @@ func init() {
 			for _, c := range cs {
 				rs = append(rs, HRun{Pkg: "./shovel", Fn: "ZZ_C03_Reorg", Params: []int{c.k, c.canon, c.batch, c.steps}})
 			}
+			// reorg between the RPC answers of one fetch: every accepted segment is hash-linked
+			for _, plan := range []int{1, 2, 4, 5} {
+				for _, l := range []int{2, 3} {
+					rs = append(rs, HRun{Pkg: "./jrpc2", Fn: "ZZ_C07_Get", Params: []int{plan, l, 1, 0}, MaxPaths: 100000, Label: "segment-linkage"})
+				}
+			}
 			return rs
 		},
 		Assumptions: append([]string{
 			"the chain is frozen at its canonical version while the task converges ('once the source settles'); the top (k - canon) cursor rows carry orphaned hashes, the oldest retained cursor row is canonical (forks below the retained history are outside the property as well)",
-			"reorgs landing between the RPC calls of one fetch are covered only through C07's linkage validation of each fetched segment, not by this harness",
+			"reorgs landing between the RPC answers of one fetch: every element of a batch answer has arbitrary (solver-chosen) hash and parent hash, i.e. each may come from a different chain version; an accepted segment must be hash-linked throughout (ZZ_C07_Get, plans with headers/blocks, limit 2..3); linkage across partitions of one load() and between the head query and the fetch is not covered",
 		}, convAssume...),
 		Bounds:  map[string]string{"quick": "(k cursor rows, canonical prefix, batch, steps) in {(2,1,1,2),(2,1,2,2),(3,1,2,3),(3,2,2,2),(2,2,2,1),(3,3,1,1)}; cursor numbers arbitrary increasing (any earlier batch sizes)", "thorough": "adds fork depths up to 3 rows and batch up to 4"},
 		Outside: []string{"the 1000-iteration cap of the unwind loop", "reorgs deeper than the retained cursor history", "a tip orphaned at the same height is only noticed when the head grows"},
@@ -443,7 +453,7 @@ func init() {
 	})
 	register(&PropSpec{
 		ID:   "C04",
-		Pkgs: []string{"./shovel", "./dig"},
+		Pkgs: []string{"./shovel", "./dig", "./jrpc2"},
 		Runs: func(tier string) []HRun {
 			rs := []HRun{
 				{Pkg: "./shovel", Fn: "ZZ_C03_Reorg", Params: []int{2, 1, 2, 2}},
@@ -453,12 +463,16 @@ func init() {
 			for _, l := range []int{3, 13, 45, 29} {
 				rs = append(rs, HRun{Pkg: "./dig", Fn: "ZZ_C11_Log", Params: []int{l, 0, popIdx(l) + 1, 1}})
 			}
+			// two tasks with different log filters attaching logs to one shared cached block
+			for _, n := range []int{2, 3} {
+				rs = append(rs, HRun{Pkg: "./jrpc2", Fn: "ZZ_C08_Seq", Params: []int{0, n, 2, 0}, MaxPaths: 200000, Label: "shared-cached-block"})
+			}
 			return rs
 		},
 		Assumptions: append([]string{
 			"frame condition per statement: three foreign pairs (same source/other integration, other source/same integration with the shared table, same source/other integration sharing the table) with arbitrary cursor rows are present while the task unwinds a reorg and inserts; they must be unchanged afterwards. Interleavings follow from the frame condition: statements that read and write only rows of their own pair commute",
 			"row stamping (ig_name/src_name of every emitted row equal the task's names) is decided on the real row builder (ZZ_C11_Log)",
-			"the shared-cache clause (log de-duplication on a cached block) is part of C08",
+			"shared cached block: every order of 2-3 requests by two callers whose filters match different logs of one transaction on the same cached range; each caller must find its own log exactly once (ZZ_C08_Seq kind 0)",
 		}, convAssume...),
 		Bounds:  map[string]string{"quick": "3 reorg/insert scenarios x 3 foreign pairs; 4 event layouts for the stamp", "thorough": "same"},
 		Outside: []string{"Postgres row-level isolation itself", "restarts (loadTasks context derivation) - see C20"},
